@@ -26,7 +26,7 @@ def run(chk):
                 break
     if not found:
         for c in bad_img[:2]:
-            chk.violation('image-mismatch', 'GetImage disagrees with the model (code %d)' % c['code'], {'kind': 'image-corr', 'case': c})
+            chk.violation('image-mismatch', 'GetImage disagrees with the model (code %d)' % c['code'], {'kind': 'image-corr', 'case': c}, found_input=False)
 
 
 def replay(chk, rp):
